@@ -25,7 +25,7 @@ def describe(tier):
 
 
 def blocks(tier):
-    bl = K.pair_blocks(tier) + K.many_blocks(tier) + K.run_blocks(tier) + K.block_blocks(tier) + [("manylong", {})]
+    bl = K.pair_blocks(tier) + K.many_blocks(tier) + K.run_blocks(tier) + K.block_blocks(tier) + [("manylong", {}), ("huge", {})]
     return [(f, dict(p, tier=tier)) for f, p in bl]
 
 
@@ -145,6 +145,12 @@ def run_block(family, p, acc):
                 check_kernels_only(B, A, acc, "runs")
                 acc.case(("runs", tuple(A), tuple(B)), nontrivial=K.overlapping(A, B), outcome=("runs", len(set(A) & set(B))), sample=lambda: {"universe": "runs", "A": A, "B": B})
         return
+    if family == "huge":
+        for da, db in K.huge_pairs(tier):
+            check_kernels_only(da, db, acc, "blocked", layouts=("contiguous",), label=(da, db))
+            check_kernels_only(db, da, acc, "blocked", layouts=("contiguous",), label=(db, da))
+            acc.case(("huge", da["pat"], da["n"], repr(db)), nontrivial=True, outcome=("huge", da["pat"]), sample=lambda: {"universe": "blocked", "A": da, "B": db})
+        return
     if family == "manylong":
         for lst in K.many_long_lists(tier):
             check_many(lst, acc, "manylong")
@@ -156,7 +162,7 @@ def run_block(family, p, acc):
             A = K.expand(da)
             for db in descs:
                 B = K.expand(db)
-                check_kernels_only(A, B, acc, "blocked", layouts=("contiguous",), label=(da, db))
+                check_kernels_only(A, B, acc, "blocked", layouts=("contiguous", "strided") if (da["n"] + db["n"]) % 5 == 0 else ("contiguous",), label=(da, db))
                 acc.case(("blocked", da["pat"], da["n"], db["pat"], db["n"]), nontrivial=True, outcome=("blocked", da["pat"], db["pat"]), sample=lambda: {"universe": "blocked", "A": da, "B": db})
             for B in K.tiny_probes(A):
                 check_kernels_only(A, B, acc, "blocked", layouts=("contiguous",), label=(da, B))
